@@ -98,7 +98,7 @@ def check(tier, seed):
         cov.update(evaluations=0, distinct_nontrivial=0, samples=[], rule=RULE)
         vlib.write_evidence(pid, tier, seed, cov, time.time() - t0, 1)
         print("VIOLATION property=%s replay=%s no-failing-input-found" % (pid, p)); return 1
-    rounds = 36 if tier == "quick" else 400
+    rounds = 72 if tier == "quick" else 400
     viol = None; nthreads = 0; allraces = {}; unattributed = []
     samples = []
     for r in range(rounds):
